@@ -27,7 +27,10 @@ CLS = {"oc": S.ObjectClassDescription, "at": S.AttributeTypeDescription, "dcr": 
 
 
 def absd(o: t.Any) -> t.Dict[str, t.Any]:
-    d = dict(vars(o))
+    import dataclasses
+
+    # the definition's declared fields (not whatever else an implementation keeps on the object)
+    d = {f.name: getattr(o, f.name) for f in dataclasses.fields(o)}
     for k, v in d.items():
         if isinstance(v, str) and hasattr(v, "value"):
             d[k] = v.value
